@@ -38,7 +38,10 @@ func NormErrors(errs gqlerror.List) []string {
 }
 
 // ExpErrors renders the reference errors the same way.
-func ExpErrors(errs []refexec.ErrEntry) []string {
+func ExpErrors(errs []refexec.ErrEntry) []string { return expErrors(errs, false) }
+
+// expErrors: with gqlgen's own recover hook every panic is reported as DefaultRecoverMsg.
+func expErrors(errs []refexec.ErrEntry, defaultRecover bool) []string {
 	var out []string
 	for _, e := range errs {
 		msg := e.Msg
@@ -47,8 +50,14 @@ func ExpErrors(errs []refexec.ErrEntry) []string {
 			msg = "NULL"
 		case "panic":
 			msg = proj.RecoverMsg(e.Msg)
+			if defaultRecover {
+				msg = proj.DefaultRecoverMsg
+			}
 		case "foreign":
 			msg = "FOREIGN"
+			if defaultRecover {
+				msg = proj.DefaultRecoverMsg
+			}
 		}
 		out = append(out, e.Path+"|"+msg)
 	}
@@ -113,7 +122,7 @@ func Compare(vec string, ref *refexec.Result, resp *proj.Response, resolverKeys,
 		}
 		return vfrun.Failf(key, "[%s] data differs\n got: %s\nwant: %s", vec, data.Canon(), ref.Data.Canon())
 	}
-	got, want := NormErrors(resp.Errors), ExpErrors(ref.Errors)
+	got, want := NormErrors(resp.Errors), expErrors(ref.Errors, resp.DefaultRecover)
 	if !sameStrings(got, want) {
 		if sameStrings(got, ExpErrorsIndexless(ref.Errors)) {
 			f := vfrun.Failf(LeafElemPathKey, "[%s] the null error of a scalar list element names the list, not the element\n got: %q\nwant: %q", vec, got, want)
